@@ -18,6 +18,7 @@ package main
 import (
 	"flag"
 	"fmt"
+	"go/token"
 	"os"
 	"go/types"
 	"regexp"
@@ -1074,6 +1075,8 @@ func (ct *Contract) aimOnly() bool {
 
 func (ct *Contract) mergeAim(a *Contract) {
 	ct.NoWrite = append(ct.NoWrite, a.NoWrite...)
+	ct.LongLived = append(ct.LongLived, a.LongLived...)
+	ct.MayWrite = append(ct.MayWrite, a.MayWrite...)
 	ct.MustCall = append(ct.MustCall, a.MustCall...)
 	if a.AimCheck == nil {
 		return
@@ -1231,6 +1234,11 @@ func (ai *AimInfo) addrTakenBySig(sig *types.Signature) []*ssa.Function {
 // not allocate itself. Used for the CheckTx frame of C07: besides the aim pointers, which fields of the shared store
 // objects can a mempool check leave changed?
 func (ai *AimInfo) fieldWrites(fn *ssa.Function) (map[string]string, bool) {
+	return ai.fieldWritesX(fn, false)
+}
+
+// withMaps: also count `x.f[k] = v` / delete(x.f, k) on a map-typed field f as a write of f.
+func (ai *AimInfo) fieldWritesX(fn *ssa.Function, withMaps bool) (map[string]string, bool) {
 	out := map[string]string{}
 	unknown := false
 	seen := map[*ssa.Function]bool{}
@@ -1256,11 +1264,23 @@ func (ai *AimInfo) fieldWrites(fn *ssa.Function) (map[string]string, bool) {
 		}
 		for _, b := range f.Blocks {
 			for _, in := range b.Instrs {
-				st, ok := in.(*ssa.Store)
-				if !ok {
+				var addr ssa.Value
+				if mu, ok := in.(*ssa.MapUpdate); ok && withMaps {
+					if ld, ok := mu.Map.(*ssa.UnOp); ok && ld.Op == token.MUL {
+						addr = ld.X
+					}
+				} else if c, ok := in.(*ssa.Call); ok && withMaps {
+					if b, ok := c.Call.Value.(*ssa.Builtin); ok && b.Name() == "delete" {
+						if ld, ok := c.Call.Args[0].(*ssa.UnOp); ok && ld.Op == token.MUL {
+							addr = ld.X
+						}
+					}
+				} else if st, ok := in.(*ssa.Store); ok {
+					addr = st.Addr
+				}
+				if addr == nil {
 					continue
 				}
-				addr := st.Addr
 				// writes through x.f, x.f[i], x.f.g ...: the outermost named module struct field on the path
 				for {
 					if ia, ok := addr.(*ssa.IndexAddr); ok {
@@ -1332,6 +1352,7 @@ func fieldWritesCmd(argv []string) {
 	repo := fs.String("repo", "/repo", "repository root")
 	pkgs := fs.String("pkgs", "./app,./external_apps/...", "comma separated package patterns")
 	only := fs.String("func", "txChecker$1", "function name (substring of the ssa name)")
+	rootsF := fs.String("roots", "", "comma separated root types (pkg.Type): only fields of struct types reachable from them, map updates included")
 	fs.Parse(argv)
 	P, err := LoadProgram(*repo, strings.Split(*pkgs, ","))
 	if err != nil {
@@ -1344,8 +1365,16 @@ func fieldWritesCmd(argv []string) {
 			continue
 		}
 		w, unk := ai.fieldWrites(fn)
+		var ll map[string]bool
+		if *rootsF != "" {
+			w, unk = ai.fieldWritesX(fn, true)
+			ll = ai.longLivedTypes(strings.Split(*rootsF, ","))
+		}
 		var ks []string
 		for k := range w {
+			if i := strings.LastIndex(k, "."); ll != nil && (i < 0 || !ll[k[:i]]) {
+				continue
+			}
 			ks = append(ks, k)
 		}
 		sort.Strings(ks)
@@ -1400,6 +1429,141 @@ func (P *Program) NoWriteObligations(hasTag func(string) bool) []*Obligation {
 				default:
 					ob.Result = &SolveResult{Status: "unsat", Backend: "callgraph"}
 				}
+				out = append(out, ob)
+			}
+		}
+	}
+	return out
+}
+
+// longLivedTypes: the named module struct types reachable, through fields / pointers / slices / arrays / maps and the
+// module's own (non-empty) interfaces, from the given root types: the objects that outlive a transaction.
+func (ai *AimInfo) longLivedTypes(roots []string) map[string]bool {
+	out := map[string]bool{}
+	seen := map[types.Type]bool{}
+	var walk func(t types.Type)
+	walk = func(t types.Type) {
+		if t == nil || seen[t] {
+			return
+		}
+		seen[t] = true
+		switch u := t.(type) {
+		case *types.Named:
+			if !inModule(u) {
+				return
+			}
+			if _, ok := u.Underlying().(*types.Struct); ok {
+				out[typeShort(u)] = true
+			}
+			if it, ok := u.Underlying().(*types.Interface); ok {
+				if it.NumMethods() == 0 {
+					return
+				}
+				for _, nm := range ai.cg.named {
+					if _, isI := nm.Underlying().(*types.Interface); isI {
+						continue
+					}
+					if types.Implements(nm, it) || types.Implements(types.NewPointer(nm), it) {
+						walk(nm)
+					}
+				}
+				return
+			}
+			walk(u.Underlying())
+		case *types.Pointer:
+			walk(u.Elem())
+		case *types.Slice:
+			walk(u.Elem())
+		case *types.Array:
+			walk(u.Elem())
+		case *types.Map:
+			walk(u.Key())
+			walk(u.Elem())
+		case *types.Struct:
+			for k := 0; k < u.NumFields(); k++ {
+				walk(u.Field(k).Type())
+			}
+		}
+	}
+	for _, r := range roots {
+		for _, nm := range ai.cg.named {
+			if typeShort(nm) == r {
+				walk(nm)
+			}
+		}
+	}
+	return out
+}
+
+// MayWriteObligations: `longlived <root types>` + `maywrite <fields>`: over the call graph of the function, every field
+// of a long-lived struct type that is written (in an object the writer did not allocate) is on the allow-list.
+// One obligation per written field, so a newly written field is a new, failing obligation.
+func (P *Program) MayWriteObligations(hasTag func(string) bool) []*Obligation {
+	var out []*Obligation
+	var keys []string
+	for k, ct := range P.contracts {
+		if len(ct.MayWrite) > 0 && len(ct.LongLived) > 0 {
+			keys = append(keys, k)
+		}
+	}
+	sort.Strings(keys)
+	for _, k := range keys {
+		ct := P.contracts[k]
+		tag := ct.LongLived[0].Tag
+		fn := P.FindFunc(ct)
+		if fn == nil || !hasTag(tag) {
+			continue
+		}
+		ai := P.aimInfo()
+		var roots []string
+		for _, c := range ct.LongLived {
+			roots = append(roots, strings.Fields(strings.ReplaceAll(c.Src, ",", " "))...)
+		}
+		allow := map[string]bool{}
+		for _, c := range ct.MayWrite {
+			for _, fld := range strings.Fields(strings.ReplaceAll(c.Src, ",", " ")) {
+				allow[fld] = true
+			}
+		}
+		ll := ai.longLivedTypes(roots)
+		w, unk := ai.fieldWritesX(fn, true)
+		mk := func(fld string) *Obligation {
+			return &Obligation{
+				Name: fmt.Sprintf("%s/%s.%s/maywrite[%s]#1", tag, shortPkg(ct.Pkg), ct.Target, fld), Tag: tag, Kind: "maywrite", Func: fn.String(),
+				Desc: fmt.Sprintf("call-graph frame: %s of a long-lived object (reachable from %s) is written under %s only if it is on the allow-list", fld, strings.Join(roots, ", "), ct.Target),
+			}
+		}
+		if len(ll) == 0 {
+			ob := mk("?")
+			ob.Result = &SolveResult{Status: "unknown", Backend: "callgraph", Output: "no struct type reachable from the longlived roots: " + strings.Join(roots, ", ")}
+			out = append(out, ob)
+			continue
+		}
+		var wk []string
+		for fld := range w {
+			wk = append(wk, fld)
+		}
+		sort.Strings(wk)
+		for _, fld := range wk {
+			i := strings.LastIndex(fld, ".")
+			if i < 0 || !ll[fld[:i]] {
+				continue
+			}
+			ob := mk(fld)
+			switch {
+			case unk:
+				ob.Result = &SolveResult{Status: "unknown", Backend: "callgraph", Output: "a function value of unresolvable type is called"}
+			case allow[fld]:
+				ob.Result = &SolveResult{Status: "unsat", Backend: "callgraph"}
+			default:
+				ob.Result = &SolveResult{Status: "sat", Backend: "callgraph", Output: "written in " + w[fld] + " (reachable from " + ct.Target + "); not on the maywrite list: in-memory state of a long-lived object is not undone when the transaction's session is discarded"}
+			}
+			out = append(out, ob)
+		}
+		for _, fld := range sortedKeys(allow) {
+			if !ai.fieldExists(fld) {
+				ob := mk(fld)
+				ob.Result = &SolveResult{Status: "unknown", Backend: "callgraph", Output: "no such struct field in the loaded program: " + fld}
 				out = append(out, ob)
 			}
 		}
